@@ -100,7 +100,7 @@ var excC08 = map[string]excEntry{
 	"(*boc.BitString).ReadUint P2 slice *s.buf[(*s.rCursor>>3):((_>>3)+(bitLen>>3))]":         {"aligned cursor, bitLen bits available (availability guard) and " + bsInv, []guardRef{{"boc:BitString.ReadUint", "(boc.BitString.BitsAvailableForRead()<bitLen)"}}},
 	"(*boc.BitString).ReadUint P2 slice *s.buf[(*s.rCursor/8):]":                              {"rCursor <= len <= 8*len(buf) by " + bsInv + ", so rCursor/8 <= len(buf)", nil},
 	"boc.minBitsRequired P2 index tab64[((_*571347909858961602)>>58)]":                        {"a uint64 shifted right by 58 is < 64 = len(tab64)", nil},
-	"liteclient.decodeLength P1 panic _":                                                      {"unreachable: the preceding returns cover b[0] < 254 and b[0] == 255, so b[0] == 254 here (byte arithmetic, not input dependent)", nil},
+	"liteclient.decodeLength P1 panic _":                                                      {"unreachable: the preceding returns cover b[0] < 254 and b[0] == 255, so b[0] == 254 here (byte arithmetic, not input dependent)", []guardRef{{"liteclient:decodeLength", "(*b[0]==255)"}, {"liteclient:decodeLength", "~(*b[0]<254)"}, {"liteclient:decodeLength", "~(*b[0]!=254)"}}},
 	"(tlb.Hashmap[keyT, T]).Items P2 index *&h.values[(φrangeindex+1)]":                       {parallelInv, nil},
 	"(*liteapi.Client).GetAllShardsInfo P2 index tlb.HashmapE.Keys()[(φrangeindex+1)]":        {parallelInv, nil},
 	"(*liteapi.Client).GetRootDNS P2 index tlb.Hashmap.Values()[(φrangeindex+1)]":             {parallelInv, nil},
